@@ -19,6 +19,7 @@
 (*    "none"  nothing (None)          "err"   rejected with an exception                        *)
 (*    "node"  THE node  stored in `tree` (after the step) at Levels(text)                       *)
 (*    "share" THE share stored in `tree` (after the step) at Levels(text)                       *)
+(* (where the documentation admits two answers both are enabled)                               *)
 (* so that the state graph carries the expected result on its edges without multiplying states. *)
 (* Share identities: a share offered by a caller carries an identity from Ids; shares made by   *)
 (* the store itself (create) have identity 0.  The real shares used by the harness also carry   *)
@@ -54,7 +55,11 @@ DropTrail(s) == IF s # <<>> /\ s[Len(s)] = "" THEN DropTrail(SubSeq(s, 1, Len(s)
 \* text.strip('.').split('.') : never empty; all-dots and the empty text give the single empty segment
 Levels(t) == LET s == DropTrail(DropLead(t)) IN IF s = <<>> THEN <<"">> ELSE s
 IsPath(p) == \A i \in 1..Len(p) : p[i] # ""
-EmptyText(t) == t = <<"">>
+\* a text offered to an operation comes with its levels (parsed once: TLC would otherwise re-parse the text for
+\* every candidate step); actions take such a record T = [text |-> pieces, lv |-> Levels(pieces)]
+Parsed(t) == [text |-> t, lv |-> Levels(t)]
+TextRecs == {Parsed(t) : t \in Texts}
+EmptyText(T) == T.text = <<"">>
 
 Prefix(p, k) == SubSeq(p, 1, k)
 ProperPrefixes(p) == {Prefix(p, k) : k \in 1..(Len(p) - 1)}
@@ -75,65 +80,62 @@ Init == tree = <<>>
 (* ---- operations ---- *)
 \* add(share): "Creates node hierarchy from name as needed. If share already exists with same name then
 \* raises exception ... to prevent inadvertant adding of shares that clobber node hierarchy"
-CanAdd(t) == LET p == Levels(t) IN
-    /\ ~EmptyText(t)                                  \* "Empty Share Name"
+CanAdd(T) == LET p == T.lv IN
+    /\ ~EmptyText(T)                                  \* "Empty Share Name"
     /\ IsPath(p)                                      \* no empty segment
     /\ \A q \in ProperPrefixes(p) : ~IsShare(q)       \* would turn a share into a node
     /\ ~Has(p)                                        \* would add over an existing entry
 
-\* the share records the name it was given; as a dotted path that name is Levels(t)
-Add(t, i, r) ==
-    IF CanAdd(t) THEN /\ r = "share" /\ Fits(Levels(t))
-                      /\ tree' = Placed(Levels(t), ShareEntry(i, Levels(t)))
-    ELSE r = "err" /\ UNCHANGED tree
+\* the share records the name it was given; read as a dotted path that name is Levels(text)
+Add(T, i, r) ==
+    \/ r = "share" /\ CanAdd(T) /\ Fits(T.lv) /\ tree' = Placed(T.lv, ShareEntry(i, T.lv))
+    \/ r = "err" /\ UNCHANGED tree /\ ~CanAdd(T)
 
 \* change(share): "change existing share with same name in store to share ... if share and node hierachy do
 \* not exist then raises exception"
-Change(t, i, r) == LET p == Levels(t) IN
-    IF IsPath(p) /\ IsShare(p) THEN /\ r = "share"
-                                    /\ tree' = [tree EXCEPT ![p] = ShareEntry(i, p)]
-    ELSE r = "err" /\ UNCHANGED tree
+CanChange(T) == IsPath(T.lv) /\ IsShare(T.lv)
+Change(T, i, r) ==
+    \/ r = "share" /\ CanChange(T) /\ tree' = [tree EXCEPT ![T.lv] = ShareEntry(i, T.lv)]
+    \/ r = "err" /\ UNCHANGED tree /\ ~CanChange(T)
 
 \* create(name): "Retrieve share with name if it exits otherwise create a share with name and add to store"
-Create(t, r) == LET p == Levels(t) IN
-    IF IsPath(p) /\ IsShare(p) THEN r = "share" /\ UNCHANGED tree
-    ELSE IF CanAdd(t) THEN /\ r = "share" /\ Fits(p)
-                           /\ tree' = Placed(p, ShareEntry(0, p))
-    ELSE r = "err" /\ UNCHANGED tree
+Create(T, r) ==
+    \/ r = "share" /\ UNCHANGED tree /\ CanChange(T)
+    \/ r = "share" /\ ~CanChange(T) /\ CanAdd(T) /\ Fits(T.lv) /\ tree' = Placed(T.lv, ShareEntry(0, T.lv))
+    \/ r = "err" /\ UNCHANGED tree /\ ~CanChange(T) /\ ~CanAdd(T)
 
 \* addNode(name): "Creates node hierarchy from name as needed ... prevent inadvertant adding of node that
 \* clobber node/share hierarchy".  The docstring also says "If node already exists with same name then raises
 \* exception" while createNode is the documented get-or-add; C18 only requires that nothing is clobbered, so for
 \* an existing node both answers (the node, a rejection) are admitted, the tree being unchanged either way.
-CanAddNode(t) == LET p == Levels(t) IN
-    /\ IsPath(p)
-    /\ \A q \in ProperPrefixes(p) \cup {p} : ~IsShare(q)
+IsOldNode(T) == IsPath(T.lv) /\ IsNode(T.lv)
+CanAddNode(T) == /\ IsPath(T.lv)
+                 /\ \A q \in ProperPrefixes(T.lv) \cup {T.lv} : ~IsShare(q)
 
-AddNode(t, r) == LET p == Levels(t) IN
-    IF IsPath(p) /\ IsNode(p) THEN r \in {"node", "err"} /\ UNCHANGED tree
-    ELSE IF CanAddNode(t) THEN /\ r = "node" /\ Fits(p)
-                               /\ tree' = Placed(p, NodeEntry(p))
-    ELSE r = "err" /\ UNCHANGED tree
+AddNode(T, r) ==
+    \/ r \in {"node", "err"} /\ UNCHANGED tree /\ IsOldNode(T)
+    \/ r = "node" /\ ~IsOldNode(T) /\ CanAddNode(T) /\ Fits(T.lv) /\ tree' = Placed(T.lv, NodeEntry(T.lv))
+    \/ r = "err" /\ UNCHANGED tree /\ ~IsOldNode(T) /\ ~CanAddNode(T)
 
 \* createNode(name): "Retrieve node with name if it exits otherwise create a node with name and add to store"
-CreateNode(t, r) == LET p == Levels(t) IN
-    IF IsPath(p) /\ IsNode(p) THEN r = "node" /\ UNCHANGED tree
-    ELSE IF CanAddNode(t) THEN /\ r = "node" /\ Fits(p)
-                               /\ tree' = Placed(p, NodeEntry(p))
-    ELSE r = "err" /\ UNCHANGED tree
+CreateNode(T, r) ==
+    \/ r = "node" /\ UNCHANGED tree /\ IsOldNode(T)
+    \/ r = "node" /\ ~IsOldNode(T) /\ CanAddNode(T) /\ Fits(T.lv) /\ tree' = Placed(T.lv, NodeEntry(T.lv))
+    \/ r = "err" /\ UNCHANGED tree /\ ~IsOldNode(T) /\ ~CanAddNode(T)
 
 \* lookups: "return node or share or if not exist return None" / "...or if not a share (node by same name) then
 \* return None" / "... if not a node (share by same name) then return None"
-Kind(tr, t) == LET p == Levels(t) IN IF IsPath(p) /\ p \in DOMAIN tr THEN tr[p].kind ELSE "none"
-Fetch(t, r) == r = Kind(tree, t) /\ UNCHANGED tree
-FetchShare(t, r) == r = (IF Kind(tree, t) = "share" THEN "share" ELSE "none") /\ UNCHANGED tree
-FetchNode(t, r) == r = (IF Kind(tree, t) = "node" THEN "node" ELSE "none") /\ UNCHANGED tree
+Kind(tr, T) == IF IsPath(T.lv) /\ T.lv \in DOMAIN tr THEN tr[T.lv].kind ELSE "none"
+Fetch(T, r) == r = Kind(tree, T) /\ UNCHANGED tree
+FetchShare(T, r) == r = (IF Kind(tree, T) = "share" THEN "share" ELSE "none") /\ UNCHANGED tree
+FetchNode(T, r) == r = (IF Kind(tree, T) = "node" THEN "node" ELSE "none") /\ UNCHANGED tree
 
-Results == {"none", "err", "node", "share"}
-
-Next == \/ \E t \in Texts, i \in Ids, r \in Results : Add(t, i, r) \/ Change(t, i, r)
-        \/ \E t \in Texts, r \in Results : \/ Create(t, r) \/ AddNode(t, r) \/ CreateNode(t, r)
-                                          \/ Fetch(t, r) \/ FetchShare(t, r) \/ FetchNode(t, r)
+Next == \/ \E T \in TextRecs, i \in Ids, r \in {"share", "err"} : Add(T, i, r) \/ Change(T, i, r)
+        \/ \E T \in TextRecs, r \in {"share", "err"} : Create(T, r)
+        \/ \E T \in TextRecs, r \in {"node", "err"} : AddNode(T, r) \/ CreateNode(T, r)
+        \/ \E T \in TextRecs, r \in {"none", "node", "share"} : Fetch(T, r)
+        \/ \E T \in TextRecs, r \in {"none", "share"} : FetchShare(T, r)
+        \/ \E T \in TextRecs, r \in {"none", "node"} : FetchNode(T, r)
 
 Spec == Init /\ [][Next]_tree
 
@@ -148,21 +150,21 @@ PrefixClosed == \A p \in DOMAIN tree : \A q \in ProperPrefixes(p) : IsNode(q)
 NamesArePaths == \A p \in DOMAIN tree : tree[p].name = p
 \* what a lookup of path q answers: the identity of the entry placed there, or nothing
 At(tr, q) == IF q \in DOMAIN tr THEN [kind |-> tr[q].kind, id |-> tr[q].id] ELSE [kind |-> "none", id |-> 0]
-\* ... and every textual variant of a path answers like the path itself
-VariantsAgree == \A t \in Texts : IsPath(Levels(t)) => Kind(tree, t) = Kind(tree, Levels(t))
+\* every textual variant of a path answers like the path itself
+VariantsAgree == \A T \in TextRecs : IsPath(T.lv) => Kind(tree, T) = At(tree, T.lv).kind
 \* the answer for a path changes only in a step that places an object there, and then it is that object
-LookupIsLastPlaced == [][\A q \in Paths : At(tree', q) # At(tree, q) =>
-        \/ \E t \in Texts, i \in Ids : /\ Levels(t) = q /\ (Add(t, i, "share") \/ Change(t, i, "share"))
-                                       /\ At(tree', q) = [kind |-> "share", id |-> i]
-        \/ \E t \in Texts : /\ Levels(t) = q /\ Create(t, "share") /\ At(tree', q) = [kind |-> "share", id |-> 0]
-        \/ \E t \in Texts : /\ Levels(t) = q /\ (AddNode(t, "node") \/ CreateNode(t, "node"))
-                            /\ At(tree', q) = [kind |-> "node", id |-> 0]
+LookupIsLastPlaced == [][tree' = tree \/ \A q \in Paths : At(tree', q) # At(tree, q) =>
+        \/ \E T \in TextRecs, i \in Ids : /\ T.lv = q /\ (Add(T, i, "share") \/ Change(T, i, "share"))
+                                          /\ At(tree', q) = [kind |-> "share", id |-> i]
+        \/ \E T \in TextRecs : /\ T.lv = q /\ Create(T, "share") /\ At(tree', q) = [kind |-> "share", id |-> 0]
+        \/ \E T \in TextRecs : /\ T.lv = q /\ (AddNode(T, "node") \/ CreateNode(T, "node"))
+                               /\ At(tree', q) = [kind |-> "node", id |-> 0]
         \/ /\ ~Has(q) /\ At(tree', q) = [kind |-> "node", id |-> 0]        \* a missing node created on the way down
            /\ \E p \in DOMAIN tree' : q \in ProperPrefixes(p) /\ ~Has(p)]_tree
 \* a rejected operation leaves the store unchanged
-RejectedUnchanged == [][\A t \in Texts :
-        (\/ \E i \in Ids : Add(t, i, "err") \/ Change(t, i, "err")
-         \/ Create(t, "err") \/ AddNode(t, "err") \/ CreateNode(t, "err")) => UNCHANGED tree]_tree
+RejectedUnchanged == [][tree' = tree \/ \A T \in TextRecs :
+        (\/ \E i \in Ids : Add(T, i, "err") \/ Change(T, i, "err")
+         \/ Create(T, "err") \/ AddNode(T, "err") \/ CreateNode(T, "err")) => UNCHANGED tree]_tree
 \* entries are never removed and a node never becomes a share or the reverse
 KindsStable == [][\A q \in DOMAIN tree : q \in DOMAIN tree' /\ tree'[q].kind = tree[q].kind]_tree
 =============================================================================
